@@ -23,7 +23,7 @@ RUN_MODULE = "RunC11"
 TRANSLATOR_UNITS = []
 RULE = ("exhaustive: depth 2, width 1, one write + one read port (comb / sync / sync transparent), every input word "
         "(waddr, wdata, wen, raddr, ren) x (same) of two clock edges (thorough: also width 2 with two enable bits, transparent port); every single edge for depth in {0,1,2,3} x width "
-        "{1,2} x granularity {None,1} x the three read-port kinds from a non-zero initial memory; "
+        "{1,2} (quick: width 2 only with the transparent port) x granularity {None,1} x the three read-port kinds from a non-zero initial memory; "
         "seeded random: shapes unsigned 1/2/4/6/8, signed 1/3/8, StructLayout(u3,s5) and ArrayLayout(u2,4)/(u4,2) rows on raw "
         "bits, depth in {0,1,2,3,4,5,8}, 0-3 write x 0-3 read ports over two domains (posedge/negedge, with reset or "
         "reset-less), comb/sync read ports, every transparency subset in random order (sometimes with a repeated port), "
@@ -36,16 +36,13 @@ RULE = ("exhaustive: depth 2, width 1, one write + one read port (comb / sync / 
         "Compared: every read port's data after every event, all rows at the end. "
         "non-trivial = the observed answer is not constant; distinct by case hash")
 MODELLED = ("pysim._PyMemoryState (read/write/commit with the write queue), the MemoryInstance part of "
-            "_pyrtl._FragmentCompiler (write ports queued in port order with replicated enables, `if rst:` block, sync read "
+            "_pyrtl._FragmentCompiler (write ports queued in port order with replicated enables, the `if rst:` block skipping read data signals, sync read "
             "ports with the transparency patch in transparent_for order, comb read ports), _pyeval row read/write, "
             "MemoryData.Init defaults/normalisation, WritePort.Signature's granularity rules, ceil_log2 are modelled by hand in "
             "coq/Model/Mem.v; validated only: Memory.elaborate -> MemoryInstance plumbing, the delta-cycle engine (processes of "
             "both domains in one delta, commit, comb re-evaluation), data.View wrappers of aggregate rows, and the "
             "$mem*_v2 cell parameters of back.rtlil (textual comparison in `extra`, no RTLIL semantics)")
 ASSUMPTIONS = ["clock domains with synchronous reset or none (async_reset domains re-run the process on rst: finding F7)",
-               "read_hold_spec is stated for edges at which the domain's reset is low: with reset high the simulator loads a "
-               "DISABLED read port's data signal with its init value while the emitted $memrd_v2 (SRST=0) holds "
-               "(finding C11-sim-disabled-read-port-reset; modelled faithfully, C11_read_hold_under_reset_refuted)",
                "port inputs change only between edges (testbench sets inputs, then the clocks, then samples)",
                "at one simultaneous edge no two write ports of different domains write a common bit of one row "
                "(S1: the surviving value depends on the process-set iteration order; hardware: undefined)"]
@@ -252,7 +249,7 @@ def _exhaustive(thorough):
     # one edge from a non-zero memory: depths x widths x granularity x kinds (+ a second, idle, edge to see the hold)
     for name, rp in kinds:
         for depth in (0, 1, 2, 3):
-            for w in (1, 2):
+            for w in ((1, 2) if thorough or name == "transp" else (1,)):
                 for gran in ((None,) if w == 1 else (None, 1)):
                     c0 = dict(base, shape=["u", w], depth=depth, init=[(i + 1) % (1 << w) for i in range(depth)],
                               wports=[{"dom": 0, "gran": gran}], rports=[rp], g="exh1:" + name)
@@ -540,8 +537,7 @@ def _check_rtlil(c):
         exp_tm = f"{nw}'" + format(tm, f"0{nw}b") if nw else "0'0"
         sync = p["dom"] >= 0
         if (par["ABITS"], par["WIDTH"], par["CLK_ENABLE"], par["TRANSPARENCY_MASK"].rstrip()) != (str(ab), str(w), "1" if sync else "0", exp_tm):
-            dup = "DUPLICATE-TRANSPARENT-PORT " if len(set(p["transp"])) != len(p["transp"]) else ""
-            bad.append(f"{dup}memrd {j} {par} expected mask {exp_tm}")
+            bad.append(f"memrd {j} {par} expected mask {exp_tm}")
         if par["COLLISION_X_MASK"].strip("0'") not in ("", str(nw)) and set(par["COLLISION_X_MASK"].split("'")[1]) - {"0"}:
             bad.append(f"memrd {j} collision mask {par['COLLISION_X_MASK']}")
         if sync and (par["CLK_POLARITY"] != ("0" if c["neg"][p["dom"]] else "1") or
@@ -573,18 +569,6 @@ def _xcoll(rng):
     rows = rows[:depth]
     others = all(rows[i] == (i + 1) % (1 << w) for i in range(depth) if i != row)
     return (rows[row] in (da, db)) and others, (0 if rows[row] == da else 1)
-
-
-F_DUP = "C11-rtlil-transparency-mask-duplicate-port"
-F_RST = "C11-sim-disabled-read-port-reset"
-
-
-def _finding(findings, fid, payload):
-    """mark the payload as a known finding iff the id is listed as open for this property"""
-    for f in findings:
-        if f.get("property") == ID and f.get("id") == fid and f.get("status") == "open":
-            return dict(payload, known=f"{fid}: {f.get('what', '')}")
-    return dict(payload, finding_id=fid)
 
 
 def _reset_probe():
@@ -655,7 +639,7 @@ def extra(tier, seed, findings):
     st["port_set_shapes"] = len({(len(c["wports"]), len(c["rports"])) for c in cases})
     st["transparency_sets"] = len({(len(c["wports"]), tuple(p["transp"])) for c in cases for p in c["rports"]})
     # RTLIL cell parameters
-    dup_seen, n_bad = False, 0
+    n_bad = 0
     rt = [c for c in cases if c["g"] == "rand"]
     rng.shuffle(rt)
     n_rt = 600 if tier == "thorough" else 120
@@ -665,24 +649,20 @@ def extra(tier, seed, findings):
         except Exception as e:
             bad = [f"{type(e).__name__}: {e}"]
         st["rtlil_designs_checked"] += 1
-        if bad and all(b.startswith("DUPLICATE-TRANSPARENT-PORT") for b in bad):
-            st["rtlil_duplicate_transparent_port_masks_wrong"] += 1
-            if not dup_seen:
-                dup_seen = True
-                viol.append(_finding(findings, F_DUP, {"property": ID, "kind": "rtlil-cells", "case": dict(c, k="rtlil"),
-                                                       "complaints": bad[:5], "expected_by_model": [0], "observed": [len(bad)]}))
-        elif bad and n_bad < 3:
+        st["rtlil_designs_with_repeated_transparent_port"] += any(len(set(p["transp"])) != len(p["transp"])
+                                                                  for p in c["rports"])
+        if bad and n_bad < 3:
             n_bad += 1
             viol.append({"property": ID, "kind": "rtlil-cells", "case": dict(c, k="rtlil"), "complaints": bad[:5],
                          "expected_by_model": [0], "observed": [len(bad)]})
-    # read data register of a disabled sync read port at an edge with the domain's reset asserted:
-    # the simulator loads the signal's init value, $memrd_v2 (SRST tied to 0) holds
+    # read data register of a disabled sync read port at an edge with the domain's reset asserted: it must hold
+    # (as the $memrd_v2 cell, whose SRST is tied to 0, does)
     held = _reset_probe()
     st["reset_probe_read_data_after_rst_and_not_en"] = held
     if held != 6:
-        viol.append(_finding(findings, F_RST, {"property": ID, "kind": "read-port-reset", "case": {"k": "probe_rst"},
+        viol.append({"property": ID, "kind": "read-port-reset", "case": {"k": "probe_rst"},
                     "complaints": [f"read data {held} after an edge with rst=1, en=0; 6 was held before (RTLIL: SRST=0, holds)"],
-                    "expected_by_model": [6], "observed": [held]}))
+                    "expected_by_model": [6], "observed": [held]})
     # cross-domain collisions (S1): one of the two values, nothing else disturbed
     winners = collections.Counter()
     for _ in range(200 if tier == "thorough" else 40):
